@@ -32,11 +32,11 @@ PROPS = {
         assumptions=[R_REAL],
     ),
     "C20": dict(
-        rig="R", runs=dict(quick=2000, thorough=60000),
-        nontrivial_probes=["drop_event_ts_checked"],
-        must_hit=["drop_event_ts_checked"],
-        rule="Event part of the property on rig R: create/drop collection/partition events and their replication stamp; barrier wake-up ordered by the scheduler.",
-        assumptions=[R_REAL],
+        rig="R", mix=[("R", ""), ("WD", "")], runs=dict(quick=3000, thorough=100000),
+        nontrivial_probes=["drop_event_ts_checked", "applied_op", "applied_api", "malformed_pack"],
+        must_hit=["drop_event_ts_checked", "applied_op", "applied_api", "malformed_pack", "dropped_partition_removed_from_list"],
+        rule="Half of the runs on rig R (event part: create/drop collection/partition events produced by the reader and their replication stamp, barrier wake-up ordered by the scheduler), half on rig WD (writer part: every op-message kind and the four API events through the real ChannelWriter against a simulated downstream; one request per non-skipped message with identity fields, replication mark and source time; partition lists with dropped members; malformed packs).",
+        assumptions=[R_REAL, "rig WD: see C08"],
     ),
     "C12": dict(
         rig="ST", variants=["etcd", "mysql"], runs=dict(quick=3000, thorough=100000),
@@ -58,5 +58,26 @@ PROPS = {
         must_hit=["batch_of_several", "all_empty_checked", "clear"],
         rule="1-3 batchers sharing the global memory budget, each driven by its own goroutine through a seeded list of packs (sizes 0..6000 bytes) and shutdown flushes; thresholds (count, size, age, global memory) randomised per run; the scheduler interleaves receives, parked callbacks (with injected failures) and clock advances of 10 ms..10 s.",
         assumptions=["rig P: real msgpacker.Packer, checkers and the global MemoryProtector inside a synctest bubble; the write callback is scripted"],
+    ),
+    "C07": dict(
+        rig="W7", runs=dict(quick=3000, thorough=100000),
+        nontrivial_probes=["concurrent_channels", "tick_converted", "name_mapped"],
+        must_hit=["concurrent_channels", "tick_converted", "name_mapped"],
+        rule="1-3 downstream channels each driven by its own goroutine through 1-5 generated packs (insert/delete/drop-partition/drop-collection/ticks, opening tick on first pack), with/without replicate id, five name-mapping shapes, Map.Range order fixed per run; the downstream call is parked, so the scheduler interleaves the channels and decides completion order; up to 2 injected downstream rejections.",
+        assumptions=["rig W7: real ChannelWriter.HandleReplicateMessage and replicateMessageManager; bytes are decoded with Milvus' ProtoUDFactory dispatcher; the downstream is a recording api.DataHandler", "equality is judged on the serialized request (after the reference name mapping) plus decoded begin/end timestamps"],
+    ),
+    "C08": dict(
+        rig="WD", runs=dict(quick=3000, thorough=100000),
+        nontrivial_probes=["stale_operation", "stale_operation_newer_incarnation_present", "applied_op", "applied_api"],
+        must_hit=["stale_operation", "stale_operation_newer_incarnation_present", "applied_op", "applied_api"],
+        rule="Seeded source histories (8-26 create/drop/re-create events on databases, collections, partitions plus op messages of every kind), a start point with a start-up snapshot of dropped objects and a replayed op-message prefix, API events and op messages delivered by two concurrent streams whose relative progress the scheduler chooses (drops may overtake older operations), injected downstream rejections with re-delivery.",
+        assumptions=["rig WD: real ChannelWriter (HandleOpMessagePack, HandleReplicateAPIEvent, readiness cascade, getObjState) over a simulated downstream catalog that tags every object with the source incarnation that created it", "an operation is only delivered after the creation of the objects it refers to was handled; the start-up snapshot is built as the property C15 describes it"],
+    ),
+    "C09": dict(
+        rig="WD", runs=dict(quick=3000, thorough=100000),
+        nontrivial_probes=["mapped_call", "exact_and_wildcard_mapping"],
+        must_hit=["mapped_call", "exact_and_wildcard_mapping"],
+        rule="Same histories as C08, always with a name mapping (exact, whole-database, both for one source database, unrelated), source database default / empty / other, Map.Range iteration order chosen per run through the verif hook; every downstream call (18 op kinds, 4 API events, 3 readiness probes) is compared with the reference mapping. The 5 DML message types are covered by the C07 check (same mapping function, same shapes).",
+        assumptions=["rig WD: see C08", "for database-level operations on a source database that has only collection-level entries the property does not fix the target name: the source name and the target database of any such entry are accepted"],
     ),
 }
